@@ -100,6 +100,22 @@ def run_case(ctx, c):
                 expect(ctx, case, a, other, False, "packet-vs-" + type(other).__name__)
             if twin is not None:
                 expect(ctx, case, a, twin.loaded.cls[name](), False, "look-alike-class-default")
+            # a pattern packet (every field Any) compares equal to any packet of its class, in both directions, without raising
+            try:
+                from bisturi.pattern_matching import anything_like
+                pat = anything_like(cls)
+            except Exception:
+                pat = None
+                ctx.count("anything_like_unavailable")
+            if pat is not None:
+                for what, l, r in (("pattern-vs-packet", pat, a), ("packet-vs-pattern", a, pat)):
+                    ctx.ev()
+                    rr = safe(ctx, case, "eq", lambda: l == r)
+                    nn = safe(ctx, case, "ne", lambda: l != r)
+                    # the pattern on the left compares Any with each value (always equal); with the packet on the left a nested
+                    # packet field decides by its own == (False against an Any): only totality and != being the negation are asserted
+                    if (what == "pattern-vs-packet" and (rr is not True or nn is not False)) or (isinstance(rr, bool) and isinstance(nn, bool) and rr == nn):
+                        ctx.violation(case(sig="eq-wrong:" + what, desc="%s: == gives %r, != gives %r" % (what, rr, nn)))
             if pseudo:
                 ctx.nt((live.src, name, "defaults"))
         for it in c["items"]:
